@@ -7,6 +7,7 @@ timing field compared with floor-to-resolution of the caption time computed in e
 import itertools
 from fractions import Fraction
 
+from mc import shared
 from mc.acc import Acc
 from mc.ref import parsers
 
@@ -146,7 +147,7 @@ def writer_obj(name, opt):
         kw = {"relativize": False, "fit_to_screen": False}
     elif opt == "video" and name not in ("LegacyDFXPWriter",):
         kw = {"video_width": 640, "video_height": 360}
-    return cls(**kw)
+    return shared.obj(cls, **kw)
 
 
 def match_plain(parsed, exp):
@@ -274,8 +275,25 @@ def opts_for(w):
     return ["default"]
 
 
+def reuse_items():
+    """a sequence over all writers / options / shapes for the reuse run (one writer object per class + options)"""
+    inst = grid_instants()[::97] + scc_instants()[::9]
+    items = []
+    for i, t in enumerate(inst):
+        for w in WRITERS:
+            opts = opts_for(w)
+            times = times_for(t, DURS[i % 3], GAPS[i % 5], GAPS[(i // 5) % 5])
+            if times[-1][1] < 86400000000:
+                items.append((w, opts[i % len(opts)], times, i % 4 == 0))
+    return items
+
+
+def reuse_eval(item):
+    return evaluate(*item)
+
+
 def shards(tier, seed):
-    sh = []
+    sh = [{"reuse": True}]
     for w in WRITERS:
         nparts = 8 if w in SLOW else 2
         for part in range(nparts):
@@ -305,6 +323,9 @@ def cases_for(d):
 
 def run_shard(d):
     acc = Acc()
+    if d.get("reuse"):
+        shared.run(acc, reuse_items(), reuse_eval, sample=lambda it: {"reuse_run_step": [it[0], it[1], it[2]]})
+        return acc.result()
     w = d["w"]
     opts = opts_for(w)
     for times, layouts in cases_for(d):
@@ -319,6 +340,8 @@ def run_shard(d):
 
 
 def replay(case):
+    if case.get("reuse"):
+        return shared.replay(reuse_items(), reuse_eval, case["index"])
     times = [tuple(t) for t in case["times"]]
     v, _ = evaluate(case["w"], case["opt"], times, case["layouts"])
     return [{"sig": s, "detail": d} for s, d in v]
